@@ -223,9 +223,17 @@ const char *tr_ident_sim(void *sock)
 // rendezvous delays waiting for this socket's progress through its current answer
 void release_holds(World &W, Peer &p)
 {
-	if (W.holds.empty() || p.cur_x < 0)
+	if (p.cur_x < 0)
 		return;
 	Exchange &x = p.xs[(size_t)p.cur_x];
+	// the socket has just been handed the last byte of the answer to its current query: what follows in its thread is the
+	// non-cancellable apply phase (an operator action can be placed exactly here)
+	if (x.gen == p.gen && !x.end_event_fired && x.bytes.size() > 0 && p.consumed >= x.start_off + x.bytes.size()) {
+		x.end_event_fired = true;
+		W.event("resp_end", p.si);
+	}
+	if (W.holds.empty())
+		return;
 	for (auto &h : W.holds) {
 		if (h.released || h.sock != p.si || x.script_index != h.xi || x.gen != p.gen)
 			continue;
